@@ -1,0 +1,34 @@
+//go:build verif
+
+package _select
+
+// Contracts for the entity selection of the command line (property C13).
+// Comment-only file: it is compiled only with -tags verif and contains no code.
+
+// What the resolver answered to the last prefix lookup (ghost record of Resolver.ResolvePrefix).
+//@ ghost var lastPrefix string
+//@ ghost var lastPrefixErr error
+//@ ghost var prefixLookups int
+
+//@ func Resolver.ResolvePrefix
+//@   modifies lastPrefix, lastPrefixErr, prefixLookups
+//@   defines lastPrefix == prefix && lastPrefixErr == result1 && prefixLookups == old(prefixLookups) + 1
+
+// selected() reads the selection file and resolves the full id stored there (never a prefix).
+//@ func selected
+//@ func Clear
+//@ func NewErrNoValidId
+//@   trusted
+//@   modifies nothing
+
+// Resolve: when a first argument is given it is looked up as an id prefix, exactly once. If that lookup
+// succeeds the entity is returned and the argument consumed; if it fails with anything but not-found - in
+// particular with the multiple-match error of an ambiguous prefix - that very error is returned: an
+// ambiguous prefix must never fall back to the previously selected entity.
+//@ func Resolve
+//@   props C13
+//@   requires resolver != nil && repo != nil
+//@   let n = len(old(args))
+//@   ensures [prefix-looked-up]      n > 0 ==> prefixLookups == old(prefixLookups) + 1 && lastPrefix == old(args[0])
+//@   ensures [unique-prefix-wins]    n > 0 && lastPrefixErr == nil ==> result2 == nil && len(result1) == n - 1
+//@   ensures [ambiguity-is-reported] n > 0 && lastPrefixErr != nil && !entity.IsErrNotFound(lastPrefixErr) ==> result2 == lastPrefixErr
